@@ -15,6 +15,9 @@ pub fn c03_seq() {
     process_request("set k 5", &n.dbs, &mut w);            // version 0
     let (mut s, mut srx) = db_client(&n.dbs, "d");
     let mut subscribed = false;
+    // S may send `watch k` again while subscribed (a second registration); whatever that means for the number of notifications per
+    // write (not judged here), its unwatch / unwatch-all / disconnect ends ALL of them
+    let mut regs = 0;
     let mut other: Option<(Client, Receiver<String>)> = Some(db_client(&n.dbs, "d"));
     let steps = vsym::param("events", 4);
     let mut i = 0;
@@ -24,9 +27,9 @@ pub fn c03_seq() {
         drain(&mut srx);
         let cur = peek(&n.dbs, "d", "k");
         match ev {
-            0 => { if !subscribed { let r = process_request("watch k", &n.dbs, &mut s); vsym::check("watch.ok", is_ok(&r)); subscribed = true; } }
-            1 => { process_request("unwatch k", &n.dbs, &mut s); subscribed = false; }
-            2 => { process_request("unwatch-all", &n.dbs, &mut s); subscribed = false; }
+            0 => { if regs < 2 { let r = process_request("watch k", &n.dbs, &mut s); vsym::check("watch.ok", is_ok(&r)); subscribed = true; regs += 1; vsym::cover("watch.twice", regs == 2); } }
+            1 => { process_request("unwatch k", &n.dbs, &mut s); subscribed = false; regs = 0; }
+            2 => { process_request("unwatch-all", &n.dbs, &mut s); subscribed = false; regs = 0; }
             3 => { if let Some((o, _)) = other.as_mut() { process_request("watch k", &n.dbs, o); } }
             4 => { if let Some((o, _)) = other.as_mut() { process_request("unwatch-all", &n.dbs, o); } }
             5 => { if let Some((o, _)) = other.as_mut() { process_request("unwatch k", &n.dbs, o); } }
@@ -49,6 +52,8 @@ pub fn c03_seq() {
                 let committed = is_ok(&r);
                 if !subscribed || ev == 11 || !committed {
                     vsym::check("notify.nothing-when-not-owed", got.len() == 0);
+                } else if regs > 1 {
+                    vsym::check("notify.at-least-once-when-registered-twice", got.len() >= 1);
                 } else if ev == 10 {
                     vsym::check("notify.one-removed-per-remove", got.len() == 1 && got[0] == "removed k\n");
                 } else {
